@@ -1,4 +1,4 @@
-//! C11 — imperative editing of lax diagrams refines a plain list model (lax tier; serde clause not covered).
+//! C11 — imperative editing of lax diagrams refines a plain list model; serde JSON round trip (lax tier).
 use super::*;
 use crate::explore::{choose, fresh, lw};
 use crate::plain::*;
@@ -9,7 +9,7 @@ use std::time::Duration;
 pub fn def() -> CheckDef {
     CheckDef {
         id: "C11",
-        functions: &["lax::Hypergraph::{new_node,new_edge,new_operation,add_edge_source,add_edge_target,unify,delete_nodes,delete_nodes_witness,delete_edges,delete_edge,with_nodes,map_nodes,with_edges,map_edges}", "lax::OpenHypergraph::{new_node,new_edge,new_operation,add_edge_source,add_edge_target,unify,delete_nodes,delete_edges,with_nodes,map_nodes,with_edges,map_edges}"],
+        functions: &["lax::Hypergraph::{new_node,new_edge,new_operation,add_edge_source,add_edge_target,unify,delete_nodes,delete_nodes_witness,delete_edges,delete_edge,with_nodes,map_nodes,with_edges,map_edges}", "lax::OpenHypergraph::{new_node,new_edge,new_operation,add_edge_source,add_edge_target,unify,delete_nodes,delete_edges,with_nodes,map_nodes,with_edges,map_edges}", "serde::{Serialize,Deserialize} derives of lax::{OpenHypergraph,Hypergraph,Hyperedge,NodeId,EdgeId} through serde_json"],
         bounds_quick: "one builder call from an arbitrary state (every state is reachable through the public fields, so one step covers histories): states with <=3 nodes, <=2 hyperedges (arities <=2), <=2 pending pairs, interfaces <=1..2; identifier arguments enumerated including duplicates and one out-of-range value; labels symbolic",
         bounds_thorough: "states with <=4 nodes, <=3 hyperedges; deletion lists of length <=3",
         jobs,
@@ -205,6 +205,17 @@ fn oracle_relabel(inp: &PV, out: &PV) -> T {
     ])
 }
 
+fn oracle_serde(inp: &PV, out: &PV) -> T {
+    if out.is_panic() {
+        return tm::FALSE;
+    }
+    let st = inp.at(0).lax();
+    let mut h = st.clone();
+    h.s = vec![];
+    h.t = vec![];
+    tm::and(vec![raw_lax_eq(out.at(0).lax(), st), out.at(1).t(), raw_lax_eq(out.at(2).lax(), &h)])
+}
+
 pub fn jobs(tier: Tier, _seed: u64) -> Vec<Job> {
     let per_job = Duration::from_secs(if tier == Tier::Quick { 60 } else { 600 });
     let cfg = base_cfg(tier);
@@ -265,6 +276,11 @@ pub fn jobs(tier: Tier, _seed: u64) -> Vec<Job> {
                 PV::List(vec![PV::Lax(st), PV::of_ts(&ids)])
             };
             out.push(case_job(crate::case!(format!("delete_edges from {}", sh.show()), gen, c11_delete_edges, oracle_delete_edges, 2), cfg.clone(), per_job, must));
+        }
+        {
+            let sh2 = sh.clone();
+            let gen = move || PV::List(vec![PV::Lax(gen_lax(&sh2, "s"))]);
+            out.push(case_job(crate::case!(format!("serde JSON round trip and field names from {}", sh.show()), gen, c11_serde, oracle_serde, 3), cfg.clone(), per_job, must && sh.refs() <= 5));
         }
         if sh.refs() <= 4 {
             let sh2 = sh.clone();
